@@ -588,6 +588,7 @@ class EventBus:
                 self.event_queue.put_nowait(event)
                 # Only add to history after successfully queuing
                 self.event_history[event.event_id] = event
+                event._event_pending_bus_count += 1  # pyright: ignore[reportPrivateUsage]
                 # Only record it as a child of the running handler once it is accepted: a rejected dispatch must leave
                 # no trace, or the would-be parent waits forever for a child that will never be processed
                 self._track_child_event(event)
@@ -1052,6 +1053,10 @@ class EventBus:
 
     def _finish_processing_event(self, event: 'BaseEvent[Any]') -> None:
         """Mark the event complete if it is, and propagate completion up the parent chain"""
+        # This bus is done with the event
+        if event._event_pending_bus_count > 0:  # pyright: ignore[reportPrivateUsage]
+            event._event_pending_bus_count -= 1  # pyright: ignore[reportPrivateUsage]
+
         # Mark event as complete if all handlers are done
         event.event_mark_complete_if_all_handlers_completed()
 
